@@ -251,7 +251,7 @@ def check_unkillable(case):
   plan = {int(k): v for k, v in (case.get('plan') or {}).items()}
 
   def fn(s):
-    htf = ohtf.reset_case(cancel_timeout_s=0.5, plug_teardown_timeout_s=2.0)
+    htf = ohtf.reset_case(cancel_timeout_s=0.5, plug_teardown_timeout_s=case.get('ptt', 2.0))
     vmode.quiet_logging()
     log = []
     classes = []
@@ -263,6 +263,9 @@ def check_unkillable(case):
           log.append(('td-returned', i))
         elif i in case.get('late', ()):
           s.sleep(2.0 + 0.001)   # overruns plug_teardown_timeout_s by a hair: returns while it is being abandoned
+          log.append(('td-returned', i))
+        elif i in case.get('slow', ()):
+          s.sleep(0.3)           # takes its time; with "no limit" configured it is waited for
           log.append(('td-returned', i))
       classes.append(type('HPlug%d' % i, (htf.plugs.BasePlug,), {'tearDown': td}))
 
@@ -303,6 +306,15 @@ def check_unkillable(case):
     r.bad('C08/teardown-fault-changes-outcome', 'outcome %s, expected %s; case=%r' % (res['outcome'], want, case))
   if not any(e[0] == 'cb' for e in res['log']):
     r.bad('C08/no-callback-after-hang', repr(res['log']))
+  if 'ptt' in case:
+    # "Timeout (in seconds) for each plug tearDown function if > 0; otherwise, will wait an unlimited time": 0, a negative
+    # value or an empty (None) value all mean that a slow tearDown is waited for
+    cb_at = [i for i, e in enumerate(res['log']) if e[0] == 'cb']
+    for i in case.get('slow', ()):
+      done = [k for k, e in enumerate(res['log']) if e == ('td-returned', i)]
+      if not done or (cb_at and done[0] > cb_at[0]):
+        r.bad('C08/teardown-not-waited-for-although-unlimited', 'plug_teardown_timeout_s=%r: tearDown of plug %d %s; log=%r' % (
+            case['ptt'], i, 'never returned (killed)' if not done else 'returned after the output callback', res['log']))
   bound = 2.0 * (len(case['hang']) + len(case.get('late', ()))) + 5.0
   if res['end'] > bound:
     r.bad('C08/abandon-too-late', 'execute() returned at virtual %.1fs, bound %.1fs' % (res['end'], bound))
@@ -350,6 +362,7 @@ def plan(tier, seed):
   jobs = [{'kind': 'hyp', 'name': 'hyp%d' % i, 'hseed': seed * 1000 + i, 'n': n} for i in range(16)]
   jobs.append({'kind': 'unkillable', 'name': 'unkillable'})
   jobs.append({'kind': 'late', 'name': 'late'})
+  jobs.append({'kind': 'unlimited', 'name': 'unlimited'})
   jobs.append({'kind': 'monitored', 'name': 'monitored'})
   return jobs
 
@@ -372,6 +385,16 @@ def run_job(job, acct):
             for sig, detail in r.violations:
               (acct.known if sig in known else acct.violation)(sig, case, detail)
     acct.exhaustive_parts.append('unkillable tearDown: all subsets of hanging plugs for 1-3 plugs x {phase passes, phase raises} (virtual time)')
+    return
+  if job['kind'] == 'unlimited':
+    for ptt in (0, None, -1, -0.5):
+      for nplugs, slow in ((1, [0]), (2, [0, 1]), (3, [1])):
+        case = {'unkillable': 1, 'plugs': nplugs, 'hang': [], 'slow': slow, 'raise_in_phase': False, 'ptt': ptt}
+        r = check_unkillable(case)
+        acct.case(case, True, r.classes + ['unlimited-teardown'])
+        for sig, detail in r.violations:
+          (acct.known if sig in known else acct.violation)(sig, case, detail)
+    acct.exhaustive_parts.append('plug_teardown_timeout_s in {0, None, -1, -0.5} ("no limit") x slow tearDowns')
     return
   if job['kind'] == 'monitored':
     for i in range(len(MONITORED_PROGS)):
